@@ -46,6 +46,8 @@ type Solver struct {
 
 var slowLog = os.Getenv("SYMGO_SLOW") != ""
 
+var hardTimeout = 35 * time.Second
+
 var solverArgv = []string{"z3", "-in", "-t:20000"}
 
 func NewSolver(argv []string) (*Solver, error) {
@@ -153,13 +155,35 @@ func (s *Solver) Assert(t *Term) {
 	s.send("(assert " + ref(t) + ")\n")
 }
 
+// readLine reads one line of solver output under a hard wall-clock limit: the
+// solver's own soft timeout is not honoured inside some preprocessing steps.
+// On expiry the process is killed and the path ends as solver-inconclusive.
 func (s *Solver) readLine() string {
-	line, err := s.out.ReadString('\n')
-	if err != nil {
-		s.dead = true
-		return "(error \"solver died: " + err.Error() + "\")"
+	type res struct {
+		line string
+		err  error
 	}
-	return strings.TrimSpace(line)
+	ch := make(chan res, 1)
+	go func() {
+		line, err := s.out.ReadString('\n')
+		ch <- res{line, err}
+	}()
+	select {
+	case r := <-ch:
+		if r.err != nil {
+			s.dead = true
+			return "(error \"solver died: " + r.err.Error() + "\")"
+		}
+		return strings.TrimSpace(r.line)
+	case <-time.After(hardTimeout):
+		s.dead = true
+		s.stats.Unknown++
+		if s.cmd != nil && s.cmd.Process != nil {
+			s.cmd.Process.Kill()
+		}
+		<-ch
+		panic(pathEnd{stSolver, "solver exceeded the hard time limit; process restarted"})
+	}
 }
 
 // Check asks whether the asserted context plus extra (may be nil) is satisfiable.
